@@ -1,5 +1,3 @@
 import Props.SlicesGen
 open Model.SlicesGen
-#print axioms traverse_eq
-#print axioms findHeads_eq
 #print axioms logDifference_eq
